@@ -23,6 +23,14 @@ def main():
         outf = None
     outs = []
     for kind, payload, opt in job['actions']:
+        if kind == 'write':
+            # (re)write a source file, keeping its time stamp: payload = [path, text]
+            import os
+            with open(payload[0], 'wb') as f:
+                f.write(payload[1].encode('utf8'))
+            os.utime(payload[0], ns=(1600000000 * 10**9, 1600000000 * 10**9))
+            outs.append(['ok', ''])
+            continue
         try:
             if opt == 'default':
                 args = ()
